@@ -91,7 +91,8 @@ impl CountMinSketch {
         }
 
         let ctrs = ctrs.next_power_of_two();
-        let hctrs = ctrs / 2;
+        // two 4-bit counters per byte, and at least one byte per row (ctrs == 1)
+        let hctrs = (ctrs / 2).max(1);
 
         let mut source = StdRng::seed_from_u64(
             SystemTime::now()
